@@ -26,6 +26,15 @@ impl Driven for D {
          _ => panic!("verif harness: unknown relation {}", rel),
       }
    }
+   fn clear(&mut self, rel: &str) {
+      match rel {
+         "e_rn" => { self.0.e_rn = Default::default(); },
+         "u_rn" => { self.0.u_rn = Default::default(); },
+         "p3_rn" => { self.0.p3_rn = Default::default(); },
+         "p4_rn" => { self.0.p4_rn = Default::default(); },
+         _ => panic!("verif harness: unknown relation {}", rel),
+      }
+   }
    fn run(&mut self) { self.0.run(); }
    fn dump(&self) -> Value {
       let mut m: Vec<(String, Value)> = vec![];
